@@ -159,7 +159,9 @@ package sourcewrap
 //@   flag record blankSetSource
 //@   requires b != nil
 //@   requires api_precondition_blank_is_watched: b.t != nil && b.wa != nil
-//@   modifies sourcewrap.Blank.inner@b, rec_sourceValue, rec_waBlockingReport, rec_watch
+//@   requires api_precondition_not_its_own_source: s != nil ==> pay(s) != b
+//@   modifies sourcewrap.Blank.inner@b, rec_sourceValue, rec_waBlockingReport, rec_watch,
+//@            sourcewrap.Blank.t@pay(s), sourcewrap.Blank.wa@pay(s), sourcewrap.Blank.watchCtx@pay(s)
 //@   ensures C20_nil_source_refused: s == nil ==> err != nil && b.inner == old(b.inner)
 //@        && rec_sourceValue_cnt == old(rec_sourceValue_cnt) && rec_waBlockingReport_cnt == old(rec_waBlockingReport_cnt)
 //@   ensures C20_watcher_is_never_replaced: isWatcher(old(b.inner)) ==> err != nil && b.inner == old(b.inner)
